@@ -110,10 +110,11 @@ def run(tier, seed):
     for k, v in classes.items():
         res.clause(k, v)
     res.coverage.update(
-        distinct_nontrivial=pu.distinct_nontrivial(obs), exhaustive=True, map_evaluations=classes.get("maps", 0),
+        distinct_nontrivial=pu.distinct_nontrivial(obs), exhaustive=True, map_evaluations=classes.get("maps", 0), batch_calls=res.coverage.get("evaluations", 0),
+        evaluations=max(classes.get("maps", 0), res.coverage.get("evaluations", 0)),
         rule="every map over {-1,0,1,2} on 1x1, 1x2, 1x3, 1x4, 2x1, 3x1, 4x1, 2x2, 2x3, 3x2 (set equality with the spec's space decided by TLC) and on 3x3 (%s), "
              "each at thresholds -2, 0, 1 in batches of varying (samples x channels); plus random (2x2)-batches of 2x2 maps and seeded random maps up to 24x24 "
-             "(integers -8..64, multiples of 1/32, zero-background bumps; patch 3/5/7).  An evaluation is one call on one batch (all four outputs judged); "
+             "(integers -8..64, multiples of 1/32, zero-background bumps; patch 3/5/7).  evaluations = maps evaluated (each (sample, channel) map of each call; batch_calls = number of calls); "
              "distinct_nontrivial counts distinct (shape, threshold, map) inputs with >= 2 cells and a non-constant map.  Ties and plateaus are part of the space on purpose." % (
                  "10% sample, subset decided by TLC" if tier == "quick" else "complete, 262144, decided by TLC"))
     for k in (3, n_exh - 1, len(obs) - 1):
